@@ -14,6 +14,7 @@ package main
 import (
 	"fmt"
 	"math/rand"
+	"os"
 	"reflect"
 	"strings"
 
@@ -24,6 +25,16 @@ import (
 )
 
 func init() { props["C03"] = runC03 }
+
+// c03Model: the rule flags the real checker is tied to: `asis` = TDefects.asIs (the current /repo);
+// `safefix` / `repaired` for self-tests against a patched copy (VERIF_REPO=… VERIF_C03_MODEL=safefix).
+func c03Model() string {
+	switch m := os.Getenv("VERIF_C03_MODEL"); m {
+	case "safefix", "safefix2", "repaired", "aswas":
+		return m
+	}
+	return "asis"
+}
 
 var (
 	tInt     = reflect.TypeOf(int(0))
@@ -89,7 +100,7 @@ func (g *c03gen) hashOf(t reflect.Type) (string, bool) {
 var c03Faults = []string{
 	"unknown-name", "unknown-field", "unknown-func", "unknown-method", "wrong-arity", "wrong-arg-type",
 	"int-literal-to-non-numeric-param", "non-bool-condition", "non-bool-predicate", "mismatched-operands",
-	"non-collection-builtin", "bad-index", "pointer-outside-closure",
+	"non-collection-builtin", "bad-index",
 }
 
 func (g *c03gen) fault() string {
@@ -106,9 +117,9 @@ func (g *c03gen) fault() string {
 	case "wrong-arity":
 		return g.pick("Fi()", "Fi(1, 2)", "Mi(1)", "Ms()", "Fb(true)", "Fv()", "Mi(1, \"a\", 3)")
 	case "wrong-arg-type":
-		return g.pick("Fi(\"s\")", "Fs(true)", "Mi(\"s\", \"s\")", "Fb(1, 1)", "Ff(Str)", "Fv(1)", "Fv(\"s\", \"t\")", "Fi(F64)", "Fi(I64)", "Ms(I)")
+		return g.pick("Fi(\"s\")", "Fs(true)", "Mi(\"s\", \"s\")", "Fb(I, 1)", "Ff(Str)", "Fv(B)", "Fv(\"s\", \"t\")", "Fi(F64)", "Fi(I64)", "Ms(I)")
 	case "int-literal-to-non-numeric-param":
-		return g.pick("Fs(1)", "Ms(2)", "Fb(1, 2)", "Mi(1, 2)", "Fs(1 + 2)", "Fs(-1)")
+		return g.pick("Fs(1)", "Ms(2)", "Fb(1, 2)", "Mi(1, 2)", "Fs(1 + 2)", "Fs(-1)", "Fv(1)")
 	case "non-bool-condition":
 		return g.pick("(1 ? I : I)", "(Str ? 1 : 2)", "(St ? 1 : 2)", "(F64 ? Str : Str)")
 	case "non-bool-predicate":
@@ -151,18 +162,35 @@ func (g *c03gen) expr(t reflect.Type, d int) string {
 		if leaf {
 			return "Strs"
 		}
-		return g.pick("Strs", fmt.Sprintf("map(%s, {%s})", g.array(d-1), g.inClosure(tInt, func() string { return g.expr(tString, d-1) })),
-			fmt.Sprintf("filter(Strs, {%s})", g.inClosure(tString, func() string { return g.expr(tBool, d-1) })),
-			fmt.Sprintf("Strs[%s:%s]", g.smallInt(), g.smallInt()))
+		switch g.rng.Intn(4) {
+		case 0:
+			return fmt.Sprintf("map(%s, {%s})", g.array(d-1), g.inClosure(tInt, func() string { return g.expr(tString, d-1) }))
+		case 1:
+			return fmt.Sprintf("filter(Strs, {%s})", g.inClosure(tString, func() string { return g.expr(tBool, d-1) }))
+		case 2:
+			return fmt.Sprintf("Strs[%s:%s]", g.smallInt(), g.smallInt())
+		}
+		return "Strs"
 	case t == tAnys:
 		if leaf {
 			return "Anys"
 		}
-		return g.pick("Anys", fmt.Sprintf("[%s, %s]", g.expr(tInt, d-1), g.expr(tString, d-1)), "[]", fmt.Sprintf("[%s]", g.expr(tBool, d-1)))
+		switch g.rng.Intn(4) {
+		case 0:
+			return fmt.Sprintf("[%s, %s]", g.expr(tInt, d-1), g.expr(tString, d-1))
+		case 1:
+			return "[]"
+		case 2:
+			return fmt.Sprintf("[%s]", g.expr(tBool, d-1))
+		}
+		return "Anys"
 	case t == tAny:
-		return g.pick("Any", "Anys[0]", fmt.Sprintf("Fa(%s)", g.expr(tInt, d-1)))
+		if !leaf && g.rng.Intn(3) == 0 {
+			return fmt.Sprintf("Fa(%s)", g.expr(tInt, d-1))
+		}
+		return g.pick("Any", "Anys[0]")
 	case t == tZA:
-		return g.pick("St", "Sts[0]", fmt.Sprintf("Sts[%s]", g.smallInt()))
+		return g.pick("St", "Sts[0]", "Sts["+g.smallInt()+"]")
 	}
 	return "nil"
 }
@@ -234,7 +262,13 @@ func (g *c03gen) numeric(t reflect.Type, d int, leaf bool) string {
 	case tInt:
 		switch g.rng.Intn(8) {
 		case 0:
-			return fmt.Sprintf("len(%s)", g.pick("Ints", "Strs", "Str", "MSI", "Arr", "Anys", g.expr(tString, d-1), g.array(d-1)))
+			switch g.rng.Intn(3) {
+			case 0:
+				return fmt.Sprintf("len(%s)", g.expr(tString, d-1))
+			case 1:
+				return fmt.Sprintf("len(%s)", g.array(d-1))
+			}
+			return fmt.Sprintf("len(%s)", g.pick("Ints", "Strs", "Str", "MSI", "Arr", "Anys"))
 		case 1:
 			return fmt.Sprintf("count(%s, {%s})", g.array(d-1), g.inClosure(tInt, func() string { return g.expr(tBool, d-1) }))
 		case 2:
@@ -328,6 +362,61 @@ func (g *c03gen) str(d int, leaf bool) string {
 	return "Str"
 }
 
+// untyped generates an arbitrary (mostly ill-typed) expression over the environment's names: it exercises
+// the error paths of the checker — which error is reported first, where, and how the tree is annotated.
+func (g *c03gen) untyped(d int) string {
+	atoms := []string{"I", "I8", "U64", "F64", "F32", "B", "Str", "Any", "Ints", "Strs", "Anys", "Arr", "MSI", "MII", "St", "PSt", "Sts", "My",
+		"Fi", "Nope", "1", "2", "0", "1.5", "\"a\"", "\"k\"", "true", "false", "nil"}
+	if len(g.closure) > 0 {
+		atoms = append(atoms, "#", "#", "#")
+	}
+	if d <= 0 || g.rng.Intn(5) == 0 {
+		return atoms[g.rng.Intn(len(atoms))]
+	}
+	sub := func() string { return g.untyped(d - 1) }
+	par := func() string { return "(" + sub() + ")" }
+	switch g.rng.Intn(16) {
+	case 0:
+		return fmt.Sprintf("(%s %s)", g.pick("not", "!", "-", "+"), par())
+	case 1, 2, 3:
+		ops := []string{"+", "-", "*", "/", "%", "**", "==", "!=", "<", ">", "<=", ">=", "and", "or", "&&", "||", "in", "not in", "..", "contains", "startsWith", "endsWith", "matches"}
+		return fmt.Sprintf("(%s %s %s)", par(), ops[g.rng.Intn(len(ops))], par())
+	case 4:
+		return fmt.Sprintf("%s%s%s", par(), g.pick(".", "?."), g.pick("X", "Y", "Nope", "k", "Str"))
+	case 5:
+		return fmt.Sprintf("%s[%s]", par(), sub())
+	case 6:
+		return fmt.Sprintf("%s[%s:%s]", par(), g.pick("", sub()), g.pick("", sub()))
+	case 7:
+		n := g.rng.Intn(3)
+		args := make([]string, n)
+		for i := range args {
+			args[i] = sub()
+		}
+		return fmt.Sprintf("%s(%s)", g.pick("Fi", "Fs", "Ff", "Fv", "Fa", "Fb", "Mi", "Ms", "Mp", "Nope", "I", "Any"), strings.Join(args, ", "))
+	case 8:
+		n := g.rng.Intn(2)
+		args := make([]string, n)
+		for i := range args {
+			args[i] = sub()
+		}
+		return fmt.Sprintf("%s%s%s(%s)", par(), g.pick(".", "?."), g.pick("Mi", "Ms", "Nope", "X", "Len"), strings.Join(args, ", "))
+	case 9:
+		return fmt.Sprintf("len(%s)", sub())
+	case 10, 11:
+		coll := sub()
+		return fmt.Sprintf("%s(%s, {%s})", g.pick("all", "any", "none", "one", "filter", "map", "count"), coll,
+			g.inClosure(tAny, func() string { return g.untyped(d - 1) }))
+	case 12:
+		return fmt.Sprintf("(%s ? %s : %s)", sub(), sub(), sub())
+	case 13:
+		return fmt.Sprintf("[%s, %s]", sub(), sub())
+	case 14:
+		return fmt.Sprintf("{a: %s, \"b\": %s, (%s): 1}", sub(), sub(), sub())
+	}
+	return atoms[g.rng.Intn(len(atoms))]
+}
+
 // ---------------------------------------------------------------------------------------------
 
 func errClassOf(msg string) string {
@@ -388,6 +477,8 @@ func errClassOf(msg string) string {
 		return "pointer-not-array"
 	case has("used as condition"):
 		return "non-bool-cond"
+	case has("invalid map key"):
+		return "bad-map-key"
 	case strings.HasPrefix(m, "expected "):
 		return "expected"
 	}
@@ -428,12 +519,14 @@ var c03Expects = []struct {
 }
 
 type c03Case struct {
-	env    zooEnv
-	src    string
-	expect int
-	fault  string
-	static bool
-	goal   reflect.Type
+	env      zooEnv
+	src      string
+	expect   int
+	fault    string
+	static   bool
+	goal     reflect.Type
+	refWell  bool
+	refClass string // the rule of the reference set that rejects it
 }
 
 func c03Envs() []zooEnv {
@@ -484,6 +577,17 @@ func runC03(c *Ctx) {
 		}
 		cases = append(cases, cs)
 	}
+	// arbitrary trees (tie only: error paths, positions, classes, annotations)
+	nUntyped := n
+	for i := 0; i < nUntyped; i++ {
+		g := &c03gen{rng: c.Rng}
+		e := envs[c.Rng.Intn(len(envs))]
+		ex := 0
+		if c.Rng.Intn(4) == 0 {
+			ex = 1 + c.Rng.Intn(3)
+		}
+		cases = append(cases, c03Case{env: e, src: g.untyped(1 + c.Rng.Intn(3)), expect: ex, static: false, goal: nil})
+	}
 	// a few fixed probes (DESIGN section 6 #5, #14-16, #23)
 	for _, s := range []struct {
 		src string
@@ -511,7 +615,7 @@ func runC03(c *Ctx) {
 		if _, ok := envSxCache[cs.env.Name]; !ok {
 			envSxCache[cs.env.Name] = envSx(cs.env.Val)
 		}
-		reqs = append(reqs, L(A("c03-check"), A("asis"), envSxCache[cs.env.Name], SBool(true), A(c03Expects[cs.expect].name), nodeSx(tree.Node, false)).String())
+		reqs = append(reqs, L(A("c03-check"), A(c03Model()), envSxCache[cs.env.Name], SBool(true), A(c03Expects[cs.expect].name), nodeSx(tree.Node, false)).String())
 		reals[i] = realRes{true, c03RealCheck(cs)}
 	}
 	resp, err := c.AskAll(reqs)
@@ -521,7 +625,11 @@ func runC03(c *Ctx) {
 	}
 	for i, cs := range cases {
 		if !reals[i].parsed {
-			c.R.Mismatch("generator", cs.src, "", reals[i].res)
+			if cs.goal != nil || cs.fault != "" {
+				c.R.Mismatch("generator", cs.src, "", reals[i].res)
+			} else {
+				c.R.Count("untyped:unparsable", 1)
+			}
 			continue
 		}
 		nontrivial := strings.ContainsAny(cs.src, "+-*/%<>=(.[?{")
@@ -542,8 +650,39 @@ func runC03(c *Ctx) {
 		}
 	}
 
+	// ---- Spec verdicts: the reference typing rules (Lean `synth` with the documented rule set)
+	for i := range reqs {
+		if reals[i].parsed {
+			tree, _ := parser.Parse(cases[i].src)
+			reqs[i] = L(A("c03-ref"), envSxCache[cases[i].env.Name], nodeSx(tree.Node, false)).String()
+		}
+	}
+	refs, err := c.AskAll(reqs)
+	if err != nil {
+		c.R.Mismatch("driver", "c03-ref", err.Error(), "")
+		return
+	}
+
 	// ---- oracle on the real code
-	for _, cs := range cases {
+	for i, cs := range cases {
+		if !reals[i].parsed {
+			continue
+		}
+		refWell := strings.HasPrefix(refs[i], "(well")
+		if cs.fault == "" && cs.goal != nil && !refWell {
+			// the generator claims the expression is well typed, the reference rules disagree
+			c.R.Mismatch("c03/reference-vs-generator", cs.env.Name+" | "+cs.src, refs[i], "generated as well typed")
+		}
+		if cs.fault != "" && refWell {
+			c.R.Count("oracle:mutant-not-ill-typed-by-reference", 1)
+			continue
+		}
+		// "all its operands are statically typed": the Lean definition `staticNode` decides
+		cs.static = strings.HasSuffix(refs[i], " true)")
+		cs.refWell = refWell
+		if rsx, perr := ParseSx(refs[i]); perr == nil && rsx.Tag() == "ill" && len(rsx.List) > 1 {
+			cs.refClass = rsx.List[1].Atom
+		}
 		c03Oracle(c, cs)
 	}
 	for _, k := range []string{"check:accepted", "check:rejected", "oracle:static-runs", "oracle:mutants-rejected"} {
@@ -612,7 +751,13 @@ func c03Oracle(c *Ctx, cs c03Case) {
 		}
 		return
 	}
-	if cerr != nil || !cs.static || cs.goal == nil {
+	if cerr == nil && !cs.refWell {
+		// accepted although the reference rules give it no type (arbitrary trees; the deliberate mutants are handled above)
+		violateKeyed16(c, Violation{What: "an expression that the reference typing rules reject is accepted by Compile", Key: "c03:ill-typed-accepted:" + c03IllKey(cs.refClass), Input: in,
+			Expect: "Compile rejects", Got: "accepted"})
+		return
+	}
+	if cerr != nil || !cs.static {
 		if cerr != nil && cs.goal != nil && cs.expect == 0 {
 			// a generated well-typed expression is rejected: the generator or the reference rules are off
 			c.R.Mismatch("c03/well-typed-rejected", cs.env.Name+" | "+cs.src, "accepted by the reference rules", firstLine16(cerr.Error()))
@@ -653,6 +798,23 @@ func c03Oracle(c *Ctx, cs c03Case) {
 	}
 }
 
+// c03IllKey names an accepted reference-ill-typed expression by the reference rule that rejects it
+func c03IllKey(refClass string) string {
+	switch refClass {
+	case "bad-index":
+		return "bad-index"
+	case "bad-argument":
+		return "int-literal-to-non-numeric-param"
+	case "bad-map-key":
+		return "map-literal-key"
+	case "not-sliceable":
+		return "slice-of-map"
+	case "mismatch-binary":
+		return "in-map-key"
+	}
+	return refClass
+}
+
 func c03DynKey(src string) string {
 	switch {
 	case strings.Contains(src, "filter("):
@@ -665,6 +827,12 @@ func c03DynKey(src string) string {
 
 func c03TypeErrKey(src, rerr string) string {
 	switch {
+	case strings.Contains(rerr, "interface conversion") && strings.Contains(rerr, "not string") && strings.Contains(src, "{"):
+		return "map-literal-key"
+	case strings.Contains(rerr, "cannot slice"):
+		return "slice-of-map"
+	case strings.Contains(rerr, "MapIndex") && strings.Contains(src, " in "):
+		return "in-map-key"
 	case strings.Contains(rerr, "interface conversion"):
 		return "interface-conversion"
 	case strings.Contains(rerr, "reflect: Call using"):
